@@ -17,7 +17,8 @@ def timingOK (P : Params) : Prop := P.R + P.M + 2 * P.eps ≤ P.S
 
 /-- the lock file the process relies on: the replacement while refreshing (or between writing and
     adopting the replacement of a forced refresh), else the one `lockID` names -/
-def lockFile (p : Proc) : Option Nat := if p.pc = .refreshing ∨ p.pc = .stale2 then p.f2 else p.f1
+def lockFile (p : Proc) : Option Nat :=
+  if p.pc = .refreshing ∨ p.pc = .stale2 ∨ p.pc = .stale3 then p.f2 else p.f1
 
 /-- per-process invariant: an urgent process (created / holding / refreshing) has its newest lock
     file in the repository, written at `p.t`, and is within its deadline -/
@@ -31,7 +32,7 @@ def Mutex (s : Sys) : Prop :=
 /-- the process has a claim on the lock: it believes it holds it, or it is in a forced refresh of a
     lock it held and its old lock file is still in the repository -/
 def claims (p : Proc) : Bool :=
-  holds p || ((p.pc == .stale0 || p.pc == .stale1 || p.pc == .stale2) && p.f1.isSome)
+  holds p || ((p.pc == .stale0 || p.pc == .stale1 || p.pc == .stale2) && p.f1.isSome) || p.pc == .stale3
 
 /-- the inductive form of mutual exclusion: claims of different processes never conflict -/
 def Claims (s : Sys) : Prop :=
@@ -79,8 +80,8 @@ theorem holds_urgent (p : Proc) (h : holds p = true) : urgent p = true := by
   simp only [holds, Bool.or_eq_true, beq_iff_eq] at h
   simp only [urgent, Bool.or_eq_true, beq_iff_eq]
   rcases h with h | h
+  · exact Or.inl (Or.inl (Or.inl (Or.inr h)))
   · exact Or.inl (Or.inl (Or.inr h))
-  · exact Or.inl (Or.inr h)
 
 /-- L1: the local transition preserves `Good` (this is where the timing hypothesis is used: a file
     that can be judged stale is never the lock file of an urgent process) -/
@@ -118,12 +119,18 @@ theorem local_good (P : Params) (ht : timingOK P) (now : Nat) (c : Bool) (p p' :
   | srCreate =>
     simp only [localStep] at st; split at st <;> cases st
     intro _; simp only [lockFile]; refine ⟨by simp, Nat.le_refl _, by omega⟩
-  | srAdopt =>
+  | srCheck2 =>
     simp only [localStep] at st; split at st <;> cases st
     rename_i hc
     intro _
     have := hg (by simp [urgent, hc.1])
     simpa [lockFile, hc.1] using this
+  | srAdopt =>
+    simp only [localStep] at st; split at st <;> cases st
+    rename_i hc
+    intro _
+    have := hg (by simp [urgent, hc])
+    simpa [lockFile, hc] using this
   | srFail => simp only [localStep] at st; split at st <;> cases st; intro hu; simp [urgent] at hu
   | srFailKeep => simp only [localStep] at st; split at st <;> cases st; intro hu; simp [urgent] at hu
   | removeStale k =>
@@ -147,12 +154,12 @@ theorem local_good (P : Params) (ht : timingOK P) (now : Nat) (c : Bool) (p p' :
         cases k
         · simp only [getFile, lockFile, Bool.false_eq_true, if_false] at hne
           simp only [clearFile, Bool.false_eq_true, if_false]
-          by_cases hr : p.pc = .refreshing ∨ p.pc = .stale2
+          by_cases hr : p.pc = .refreshing ∨ p.pc = .stale2 ∨ p.pc = .stale3
           · simp only [lockFile, hr, if_true] at hl ⊢; exact ⟨hl, h1, h2⟩
           · simp [hr] at hne
         · simp only [getFile, lockFile, if_true] at hne
           simp only [clearFile, if_true]
-          by_cases hr : p.pc = .refreshing ∨ p.pc = .stale2
+          by_cases hr : p.pc = .refreshing ∨ p.pc = .stale2 ∨ p.pc = .stale3
           · simp [hr] at hne
           · simp only [lockFile, hr, if_false] at hl ⊢; exact ⟨hl, h1, h2⟩
       · cases st
@@ -175,9 +182,10 @@ theorem clearFile_claims (p : Proc) (k : Bool) (h : claims (clearFile p k) = tru
   cases k
   · simp only [clearFile, Bool.false_eq_true, if_false, claims, holds, Bool.or_eq_true, Bool.and_eq_true,
       beq_iff_eq] at h ⊢
-    rcases h with h | h
-    · exact Or.inl h
+    rcases h with (h | h) | h
+    · exact Or.inl (Or.inl h)
     · simp at h
+    · exact Or.inr h
   · simpa [clearFile, claims, holds] using h
 
 /-- L3: a process gets a claim on the lock only by a passing second check -/
@@ -195,10 +203,11 @@ theorem local_claims (P : Params) (now : Nat) (c : Bool) (p p' : Proc) (a : LAct
 /-- a process with a claim has a lock file in the repository -/
 theorem claims_file (P : Params) (now : Nat) (p : Proc) (hg : Good P now p) (h : claims p = true) :
     filePresent p = true := by
-  simp only [claims, Bool.or_eq_true, Bool.and_eq_true] at h
-  rcases h with h | h
+  simp only [claims, Bool.or_eq_true, Bool.and_eq_true, beq_iff_eq] at h
+  rcases h with (h | h) | h
   · exact good_file P now p hg (holds_urgent p h)
   · simp [filePresent, h.2]
+  · exact good_file P now p hg (by simp [urgent, h])
 
 theorem lookup_lt {l : List Proc} {i : Nat} {t : Proc} (h : l[i]? = some t) :
     ∃ hi : i < l.length, l[i] = t := by
@@ -359,9 +368,10 @@ theorem mutex_from_expired (P : Params) (ht : timingOK P) (s0 : Sys)
   exact ⟨Mutex_of_Claims s hinv.2, fun p hp hh => good_file P s.now p (hinv.1 p hp) (holds_urgent p hh)⟩
 
 /-- **stale_refresh_detects_removal**: a forced refresh can neither start nor be adopted once the old
-    lock file is gone; its only continuation is `srFail` (cleanup of the replacement, context cancelled). -/
+    lock file is gone at either existence check (adoption is only possible after the second check,
+    `srAdopt` needs `stale3`); its only continuation is `srFail` (cleanup of the replacement, context cancelled). -/
 theorem stale_refresh_detects_removal (P : Params) (now : Nat) (c : Bool) (p : Proc) (h : p.f1 = none) :
-    localStep P now c p .srCheck1 = none ∧ localStep P now c p .srAdopt = none := by
+    localStep P now c p .srCheck1 = none ∧ localStep P now c p .srCheck2 = none := by
   simp [localStep, h]
 
 /-- link to the executable statement -/
@@ -469,7 +479,7 @@ open LAct in
 example :
     let P : Params := { S := 30, R := 22, M := 5, eps := 0 }
     let s0 : Sys := { now := 100, procs := [{ pc := .stale0, excl := false, t := 69, f1 := some 69 }, { excl := true }] }
-    (run P s0 [.proc 0 srCheck1, .proc 0 srCreate, .proc 0 (removeStale false), .proc 0 srAdopt]) = none
+    (run P s0 [.proc 0 srCheck1, .proc 0 srCreate, .proc 0 (removeStale false), .proc 0 srCheck2]) = none
     ∧ ((run P s0 [.proc 0 srCheck1, .proc 0 srCreate, .proc 0 (removeStale false), .proc 0 srFail, .proc 1 check1,
                .proc 1 create, .proc 1 check2ok]).map (fun s => (mutexB s, s.procs.map (·.pc)))) = some (true, [.stopping, .holding]) := by
   decide
